@@ -11,6 +11,12 @@
 (*                               consumer (ParseStyledString,               *)
 (*                               NewStyledString, emulator pen) read from   *)
 (*                               the same string; panics observed           *)
+(*        stall                  n > 0: ParseStyledString read the string   *)
+(*                               while the goroutine it parses in was held  *)
+(*                               up after the n-th ESC.  What a string      *)
+(*                               means is a function of the string (Codec): *)
+(*                               the field is documentation, the demand on  *)
+(*                               dec is the same under every schedule       *)
 (* or one run of the three consumers on an arbitrary parameter list:        *)
 (*   fuzz ps pan                 must not panic                             *)
 EXTENDS Codec, TLC, Json, IOUtils
